@@ -153,6 +153,63 @@ NEAR_MISS = [
 ]
 
 
+def corner_programs():
+    """Corners of the type system where a value could reach code compiled for another type: every program is
+    either rejected or runs without the interpreter failing, and its values have the shape of their static types.
+    Holes are filled with values of several types, so most fillings are ill-typed near-misses."""
+    V = ["1", '"x"', "true", "[1]", '["x"]', "some(1)", '(1, "x")']
+    out = []
+    USE = {"1": " + 1", '"x"': ' + "!"', "true": " && true", "[1]": "[0] + 1", '["x"]': '[0] + "!"', "some(1)": ".value() + 1", '(1, "x")': "::item0 + 1"}
+    # partial application (a dynamic function factory) over generic and non-generic functions
+    for a in V:
+        for b in V:
+            for u in (USE[a], USE[b]):
+                out.append("fn pair<T>(a: T, b: T)->Sequence<T> { [a, b] }\nlet p = partial(pair, %s);\nlet s = p(%s);\nlet r = s[0]%s;\n" % (a, b, u))
+                out.append("fn keep<T, U>(a: T, b: U)->T { a }\nlet p = partial(keep, %s);\nlet s = p(%s);\nlet r = s%s;\n" % (a, b, u))
+                out.append("fn snd<T>(a: int, b: T)->T { b }\nlet p = partial(snd, 1);\nlet s = p(%s);\nlet r = s%s;\n" % (b, u))
+            out.append("fn two(a: int, b: str)->str { b + a.to_str() }\nlet p = partial(two, %s);\nlet r = p(%s) + \"!\";\n" % (a, b))
+            out.append("fn two(a: int, b: str)->str { b + a.to_str() }\nlet p = partial(two, %s, %s);\nlet r = p() + \"!\";\n" % (a, b))
+    # adaptors that return callables: the result type must be fully resolved
+    for a in V:
+        for b in V:
+            out.append("let k = (i: int) -> {i %% 3};\nlet e = k.to_eq();\nlet r = e(%s, %s);\n" % (a, b))
+            out.append("let k = (i: str) -> {i.len()};\nlet c = k.to_cmp();\nlet r = c(%s, %s) + 1;\n" % (a, b))
+            out.append("fn mk<T>(x: T)->(T)->(T) { (y: T) -> {x} }\nlet f = mk(%s);\nlet r = f(%s)%s;\n" % (a, b, USE[a]))
+            out.append("fn mk<T>(x: T)->()->(Sequence<T>) { () -> {[x]} }\nlet f = mk(%s);\nlet r = f()[0]%s;\n" % (a, USE[b]))
+    # the type parameters of an enclosing generic function are opaque in its body
+    for a in V:
+        for b in V:
+            out.append("fn outer<T>(t: T, c: (T)->(T))->T { c(%s) }\nlet s = outer(%s, (x: %s) -> {x});\nlet r = s%s;\n" %
+                       (a, b, {"1": "int", '"x"': "str", "true": "bool", "[1]": "Sequence<int>", '["x"]': "Sequence<str>", "some(1)": "Optional<int>", '(1, "x")': "(int, str)"}[b], USE[b]))
+            out.append("fn outer<T>(t: T)->int {\n    fn inner(p: T)->T { t }\n    let q = inner(%s)%s;\n    0\n}\nlet r = outer(%s);\n" % (a, USE[a], b))
+            out.append("fn outer<T>(t: T)->Optional<int> { let v: Optional<int> = some(t); v }\nlet r = outer(%s).value() + 1;\n" % b)
+            out.append("fn outer<T>(t: T)->Sequence<int> { let v: Sequence<int> = [t]; v }\nlet r = outer(%s)[0] + 1;\n" % b)
+            out.append("fn outer<T>(t: T)->T { fn zero()->T { %s } zero() }\nlet s = outer(%s);\nlet r = s%s;\n" % (a, b, USE[b]))
+    # two declarations of one name are two types
+    for od, ov, idecl, iv, use in (("struct P(x: int)", "P(1)", "struct P(x: str)", 'P("a")', "::x + 1"),
+                                   ("struct P(x: int, y: int)", "P(1, 2)", "struct P(y: str, x: str)", 'P("a", "b")', "::x + 1"),
+                                   ("union P(a: int, b: str)", "P::a(1)", "union P(a: str, b: int)", 'P::a("s")', "!:a + 1"),
+                                   ("struct P<T>(x: T)", "P(1)", "struct P<T>(x: Sequence<T>)", "P([1])", "::x + 1")):
+        pty = "P<int>" if "<T>" in od else "P"
+        for body in ("takes_outer(inner_val)", "[outer_val, inner_val][1]%s" % use, "[inner_val, outer_val][0]%s" % use, "apply_outer(takes_outer, inner_val)",
+                     "pick(outer_val, inner_val)%s" % use, "pick(inner_val, outer_val)%s" % use, "[some(outer_val), some(inner_val)][1].value()%s" % use,
+                     "if(true, inner_val, outer_val)%s" % use, "if(false, outer_val, inner_val)%s" % use, "(outer_val, inner_val)::item1%s" % use):
+            out.append("%s\nfn takes_outer(p: %s)->int { p%s }\nfn apply_outer(f: (%s)->(int), p: %s)->int { f(p) }\nfn pick<T>(a: T, b: T)->T { b }\n"
+                       "let outer_val = %s;\nfn ctx()->int {\n    %s\n    let inner_val = %s;\n    %s\n}\nlet r = ctx();\n" % (od, pty, use, pty, pty, ov, idecl, iv, body))
+    # functions that differ in their return type only; heterogeneous equality callbacks; recursive generic compounds
+    for a in V:
+        out.append("fn f(x: int)->int { x }\nfn g(x: int)->%s { %s }\nlet fs = [f, g];\nlet r = fs[1](1) + 1;\n" %
+                   ({"1": "int", '"x"': "str", "true": "bool", "[1]": "Sequence<int>", '["x"]': "Sequence<str>", "some(1)": "Optional<int>", '(1, "x")': "(int, str)"}[a], a))
+        out.append("let r = contains([1, 2].to_generator(), %s, (a: int, b: str) -> {a + 1 == 2 && b == \"1\"});\n" % a)
+        out.append("let r = count([1, 2, 1], %s, (a: int, b: str) -> {a + 1 == 2 && b == \"1\"});\n" % a)
+        out.append("struct Nest<T>(v: T, deeper: Optional<Nest<Sequence<T>>>)\nlet n = Nest(1, some(Nest(%s, none())));\nlet r = n::deeper.value()::v[0] + 1;\n" % a)
+        out.append("struct Nest<T>(v: T, deeper: Optional<Nest<Sequence<T>>>)\nlet n = Nest(%s, some(Nest([%s], none())));\nlet r = n::deeper.value()::v[0]%s;\n" % (a, a, USE[a]))
+        out.append("struct Alt<T, U>(v: T, flip: Optional<Alt<U, T>>)\nlet n = Alt(1, some(Alt(%s, none())));\nlet r = n::flip.value()::v%s;\n" % (a, USE[a]))
+        out.append("union Res<T, E>(ok: T, err: E)\nlet q: Res<int, str> = Res::ok(%s);\nlet r = q?:ok.value() + 1;\n" % a)
+        out.append("union Res<T, E>(ok: T, err: E)\nlet q: Res<int, str> = Res::err(%s);\nlet r = q?:err.value() + \"!\";\n" % a)
+    return out
+
+
 def run(chk, tier, seed):
     rnd = random.Random(seed)
     jobs = []
@@ -170,6 +227,8 @@ def run(chk, tier, seed):
         texts.append(c12.mutate(rnd, rnd.choice(corp), corp))
     texts += [s["src"] for s in corpus.scripts() if not s["cfg"].get("expected_violation")][:: (4 if tier == "quick" else 1)]
     texts += generic_programs(tier, rnd) + NEAR_MISS
+    corners = corner_programs()
+    texts += corners if tier == "thorough" else corners[seed % 2::2]
     texts = list(dict.fromkeys(texts))
     for i, t in enumerate(texts):
         jobs.append(job_for("t%d" % i, t, LIMITS[i % len(LIMITS)], {"regex": True}))
@@ -258,7 +317,9 @@ def run(chk, tier, seed):
         chk.sample({"binding": name, "static_type": ty, "value": dump, "source": j["src"][:300]})
     chk.cov["rule"] = ("generated core programs + 2 token-level mutants each + mutations of shipped scripts/book examples + "
                        "every static root-scope signature x canonical inhabitants (variants per parameter, integer edges), "
-                       "cycled over 3 limit configurations; non-trivial = distinct accepted (program, limits)")
+                       "cycled over 3 limit configurations; type-system corner programs (partial application, callable-returning "
+                       "adaptors, opaque type parameters of enclosing functions, shadowed compounds, recursive generic compounds) with "
+                       "holes filled from 7 value types; non-trivial = distinct accepted (program, limits)")
     chk.assumptions += ["values are observed through the verif_dump hook; lazy sequences are forced for their first 12 elements",
                         "signatures without canonical inhabitants (Regex, Match, LinearRegression) and dynamic overloads are not swept"]
 
